@@ -2,7 +2,7 @@
 
 G: one decoder (base image index, patch list) -> bytes, driven by Hypothesis (quick tier) and
    additionally by atheris/libFuzzer with coverage feedback (thorough tier, vf/fuzz_c15.py).
-   Bases: ~48 small valid images built by the history engine in diverse configurations
+   Bases: 48+8 small valid images built by the history engine in diverse configurations
    (ISO9660 levels, Rock Ridge with continuation areas and relocation, Joliet, UDF, El Torito
    with sections, isohybrid MBR/GPT/APM, XA, duplicate PVD).  Patches: truncation at a drawn length
    (sector multiples and interior points), replacement of a field from the base's field map (as
@@ -45,6 +45,7 @@ ASSUMPTIONS = [
 SHARDS = {'quick': 16, 'thorough': 16}
 CASES = {'quick': 1500, 'thorough': 40000}
 NBASES = 48
+NEXTRA = 8
 BASE_SEED = 20240607
 
 
@@ -131,6 +132,27 @@ def bases():
         out.append({'img': img, 'fields': fields, 'readmap': readmap, 'cfg': p['cfg'], 'profile': p.get('profile')})
     w = {'mixed': 3, 'growshrink': 1, 'deep': 2, 'links': 2, 'boot': 3, 'hybrid': 2}
     drive(gen.any_profile(reopen_ok=False, weights=w), 400, BASE_SEED, body)
+    # indices NBASES.. : bases whose boot file really carries a boot info table (rare above)
+    first = out[:NBASES]
+    del out[:]
+    extra = []
+
+    def body2(p):
+        if len(extra) >= NEXTRA:
+            return
+        body(p)
+        if out:
+            b = out.pop()
+            if any(k == 'bit-pvd-extent' and b['img'][o:o + 4] == b'\x10\0\0\0' for o, l, k in b['fields']):
+                extra.append(b)
+        del out[:]
+    drive(gen.any_profile(reopen_ok=False, weights={'boot': 3, 'hybrid': 1}), 600, BASE_SEED + 1, body2)
+    out[:] = first + extra
+    for b in out:
+        kinds = {}
+        for f in b['fields']:
+            kinds.setdefault(f[2], []).append(f)
+        b['kinds'] = sorted(kinds.items())
     _BASES = out
     return out
 
@@ -138,11 +160,12 @@ def bases():
 REPL = st.sampled_from(['zero', 'one', 'ff', 'plus1', 'minus1', 'other', 'beyond', 'swap', 'random', 'half', 'double'])
 PATCH = st.one_of(
     st.tuples(st.just('field'), st.integers(0, 99999), REPL, st.integers(0, 0xffffffff)),
-    st.tuples(st.just('field'), st.integers(0, 99999), REPL, st.integers(0, 0xffffffff)),
+    # field kind drawn first, then the instance: rare kinds are patched as often as common ones
+    st.tuples(st.just('kfield'), st.integers(0, 9999), st.integers(0, 99999), REPL, st.integers(0, 0xffffffff)),
     st.tuples(st.just('trunc'), st.integers(0, 99999), st.sampled_from(['sector', 'interior', 'inside-metadata'])),
     st.tuples(st.just('flip'), st.integers(0, 99999), st.integers(1, 255)),
 )
-CASE = st.tuples(st.integers(0, NBASES - 1), st.lists(PATCH, min_size=1, max_size=3))
+CASE = st.tuples(st.integers(0, NBASES + NEXTRA - 1), st.lists(PATCH, min_size=1, max_size=3))
 
 
 def apply_patches(base, patches):
@@ -152,7 +175,16 @@ def apply_patches(base, patches):
     desc = []
     for p in patches:
         kind = p[0]
-        if kind == 'field' and fields:
+        if kind == 'kfield' and fields:
+            insts = base['kinds'][p[1] % len(base['kinds'])][1]
+            p = ('field', fields.index(insts[p[2] % len(insts)])) + tuple(p[3:])
+            kind = 'field'
+        if kind == 'raw':
+            blob = bytes.fromhex(p[1])
+            img[32768:32768 + len(blob)] = blob
+            touched.append(32768)
+            desc.append(('raw',))
+        elif kind == 'field' and fields:
             off, ln, fk = fields[p[1] % len(fields)]
             old = bytes(img[off:off + ln])
             if len(old) < ln:
